@@ -21,7 +21,7 @@ def cfg(clients, names, maxid, spec='SpecNames', props=True, rules='{}', sigs='{
 
 
 def trace_cfg(params):
-    return ('CONSTANTS\n Client = {%s}\n Name = {%s}\n Rules = {"R1", "R2", "R3", "R4", "R5", "R6", "R7"}\n Sigs = {"S1", "S2", "S3"}\n Match <- cMatchAll\n'
+    return ('CONSTANTS\n Client = {%s}\n Name = {%s}\n Rules = {"R1", "R2", "R3", "R4", "R5", "R6", "R7", "R8"}\n Sigs = {"S1", "S2", "S3"}\n Match <- cMatchAll\n'
             ' MaxId = 1000\n MaxRules = 1000\n' % (', '.join(map(str, range(1, params['clients'] + 1))),
                                                     ', '.join(map(str, range(1, params['names'] + 1)))))
 
